@@ -66,6 +66,7 @@ def run_case(case):
     xcols = C.state_columns(view, rb, ("xc:", "xi:", "xr:", "zr:"))
     pattern = C.row_pattern(view)
     N, M = spec["method"]["N"], spec["method"]["M"]
+    extra_seen = {}
     for it in range(case["K"]):
         w = view.random_point(rng)
         ph = rb(w)
@@ -91,12 +92,15 @@ def run_case(case):
                           "equality residuals %s" % (it, len(un_e), len(exp), C.short([exp[i][1] for i in un_e][:6]),
                                                      C.short([sys_eq[i][1] for i in un_o][:6]))})
             break
-        extra = [sys_eq[i][2] for i in un_o if pattern[sys_eq[i][2]] & xcols]
-        if extra:
+        # a leftover row that involves states must be seen at two points: with thousands of generic residuals a
+        # near-collision inside the matching tolerance can leave the wrong partner unmatched at a single point
+        for r_ in [sys_eq[i][2] for i in un_o if pattern[sys_eq[i][2]] & xcols]:
+            extra_seen[r_] = extra_seen.get(r_, 0) + 1
+        rep = sorted(r_ for r_, n_ in extra_seen.items() if n_ >= 2)
+        if rep:
             res["violations"].append({
                 "kind": "extra-dynamic-row", "mech": "C02|extra-dynamic-row",
-                "detail": "system equality rows %s involve states/helper states but are no collocation defect" %
-                          extra[:5]})
+                "detail": "system equality rows %s involve states/helper states but are no collocation defect" % rep[:5]})
             break
         # reported collocation times = t_start + h*tau_j
         d = ref.d
